@@ -368,7 +368,8 @@ def run_history(args):
                          "+".join(sorted(k.split()[-1] for k in bad)))
                 elif a == "Create":
                     # how a package is resolved at creation is the subject of C04; for C07 it is the baseline
-                    raise MachineryError("package %s: the created experiment does not match View (spec drift): %s" % (label(pk), bad))
+                    # the history goes on: whether what was created survives store/load is decided on the real projection
+                    res["drift"] = "package %s: the created experiment does not match View (spec drift): %s" % (label(pk), bad)
                 else:
                     viol("view-after-%s" % a, i, "the experiment in memory differs from the specification (observed, specified): %s" % bad,
                          "+".join(sorted(k.split()[-1] for k in bad)))
@@ -452,7 +453,10 @@ def execute(chk, jobs, procs):
         with mp.get_context("fork").Pool(procs) as pool:
             results = pool.map(run_history, jobs, chunksize=2)
     loads = 0
+    chk.cov.setdefault("drift_notes", [])
     for job, res in zip(jobs, results):
+        if res.get("drift") and len(chk.cov["drift_notes"]) < 5:
+            chk.cov["drift_notes"].append(res["drift"])
         if res.get("error"):
             raise MachineryError("history could not be executed: " + res["error"])
         chk.trace_validated(1)
@@ -528,7 +532,11 @@ def run(tier):
         "the stored description is compared as parsed YAML (component order ignored), not byte by byte",
     ]
     _summary(chk)
-    return chk.finish()
+    rc = chk.finish()
+    if rc == 0 and chk.cov.get('drift_notes'):
+        # no property violation, but creation does not resolve as InstanceStore.tla's View says: the oracle is out of date
+        raise MachineryError(chk.cov['drift_notes'][0])
+    return rc
 
 
 def replay(path):
